@@ -39,7 +39,7 @@ ASSUMPTIONS = [
 def budget(tier):
     if tier == "quick":
         return dict(examples=40, shards=16, shrink_calls=80)
-    return dict(examples=700, shards=16, shrink_calls=1200)
+    return dict(examples=500, shards=16, shrink_calls=1200)
 
 
 @st.composite
